@@ -17,6 +17,7 @@ package intdataplane
 import (
 	"fmt"
 	"io"
+	"maps"
 	"net"
 	"os"
 	"reflect"
@@ -1327,7 +1328,10 @@ func (m *endpointManager) resolveHostEndpoints() map[string]types.HostEndpointID
 func (m *endpointManager) updateHostEndpoints() {
 	// Calculate filtered name/id maps for untracked and pre-DNAT policy, and a reverse map from
 	// each active host endpoint to the interfaces it is in use for.
-	newIfaceNameToHostEpID := m.newIfaceNameToHostEpID
+	// Work on a copy: the all-interfaces entry is deleted from this map below, but
+	// m.newIfaceNameToHostEpID must stay intact because this function runs again, without a
+	// fresh resolveHostEndpoints(), when only a policy changes.
+	newIfaceNameToHostEpID := maps.Clone(m.newIfaceNameToHostEpID)
 	newPreDNATIfaceNameToHostEpID := map[string]types.HostEndpointID{}
 	newUntrackedIfaceNameToHostEpID := map[string]types.HostEndpointID{}
 	newHostEpIDToIfaceNames := map[types.HostEndpointID][]string{}
